@@ -654,6 +654,14 @@ Section Body.
         if cond ts then let* (v, t1) := item ts in while_clause n' cond item t1 (v :: acc) else Ok (rev acc, ts)
     end.
 
+  (* while parenthesis_stack: pop().close() -- the outermost remainder is the statement's own cursor and is returned *)
+  Fixpoint close_stack (l : list toks) : res toks :=
+    match l with
+    | [] => Ok []
+    | [outer] => Ok outer
+    | x :: l' => let* _ := close x in close_stack l'
+    end.
+
   Definition b_single_select (w : option value) (ts : toks) : PR :=
     let* (wc, t0) := match w with Some x => Ok (x, ts) | None => b_with_clause ts end in
     let* (inner, stack) := strip_parens (Datatypes.S (Datatypes.S (match t0 with t :: _ => tok_depth t | [] => O end))) t0 [] in
@@ -674,13 +682,7 @@ Section Body.
     let* rest :=
       match stack with
       | [] => Ok i12
-      | _ => let* _ := close i12 in
-             (fix go (l : list toks) : res toks :=
-                match l with
-                | [] => Ok []
-                | [outer] => Ok outer
-                | x :: l' => let* _ := close x in go l'
-                end) stack
+      | _ => let* _ := close i12 in close_stack stack
       end in
     Ok (node "ASTSingleSelectStatement"
           [("with_clause", wc); ("select_clause", sel); ("from_clause", frm); ("lateral_view_clauses", vtuple lats);
@@ -716,6 +718,14 @@ Section Body.
       Ok (node "ASTColumnTypeExpression" [("name", VStr n); ("params", vtuple vs)], t2)
     else Ok (node "ASTColumnTypeExpression" [("name", VStr n)], t1).      (* params: dataclass default *)
 
+  Fixpoint partition_items (one : toks -> res (value * bool * toks)) (l : list toks) (acc : list value) (dy nd : bool)
+    : res (list value * bool * bool) :=
+    match l with
+    | [] => Ok (rev acc, dy, nd)
+    | sg :: l' => let* (v, isdyn, s') := one sg in let* _ := close s' in
+                  partition_items one l' (v :: acc) (dy || isdyn) (nd || negb isdyn)
+    end.
+
   Definition b_partition (already : bool) (ts : toks) : PR :=
     let* t1 := if already then Ok ts else match_pats (PS ["PARTITION"]) ts in
     let* (segs, rest) := pop_split (S ",") t1 in
@@ -726,13 +736,7 @@ Section Body.
         let* (av, s3) := r F_compute s2 in
         Ok (node "ASTOperatorConditionExpression" [("before_value", bv); ("operator", o); ("after_value", av)], false, s3)
       else Ok (bv, true, s1) in
-    let* (parts, dyn, nondyn) :=
-      (fix go (l : list toks) (acc : list value) (dy nd : bool) : res (list value * bool * bool) :=
-         match l with
-         | [] => Ok (rev acc, dy, nd)
-         | sg :: l' => let* (v, isdyn, s') := one sg in let* _ := close s' in
-                       go l' (v :: acc) (dy || isdyn) (nd || negb isdyn)
-         end) segs [] false false in
+    let* (parts, dyn, nondyn) := partition_items one segs [] false false in
     if dyn && nondyn then Err ParseErr else
     Ok (node "ASTPartitionExpression" [("partitions", vtuple parts)], rest).
 
